@@ -283,3 +283,30 @@ Example c05_single_write_commits :
     [ROk 1 1 (Some (1, 1)) false; ROk 1 1 (Some (1, 1)) false; ROk 1 1 (Some (1, 1)) true;
      ROk 2 1 None false].
 Proof. vm_compute. split; reflexivity. Qed.
+
+(** *** Deletion of old versions under crashes: the physical algorithm (PruneAlgo.v) flushes its
+    write batch at arbitrary points; a crash leaves one of the disk states it went through.  In
+    every one of them every retained version loads back node for node - for every reachable
+    in-contract state, every flush schedule. *)
+From IAVL Require Import Ics23Facts Store StoreFacts PruneAlgo PruneAlgoFacts1 PruneAlgoFacts2 PruneAlgoFacts5 PruneAlgoFacts6 PruneAlgoFacts7 PruneAlgoFacts8 PruneAlgoFacts9 PruneAlgoFacts10 PruneAlgoFacts11 PruneAlgoFacts12 PruneAlgoFacts13 PruneAlgoFacts.
+Local Open Scope Z_scope.
+
+Theorem C05_deletion_crash_images_keep_retained_versions :
+  forall (H : bytes -> bytes), (forall x, length (H x) = 32%nat) ->
+  forall (iv : Z) (b : bool) (ops : list op) (r : list Z) (sched : list bool) (eff : bool) (n : Z),
+    init_ok iv b -> run_ok H (init_state iv b) ops ->
+    let s := fst (run H (init_state iv b) ops) in
+    forest_bounds (forest s) -> rekey_ok r (forest s) -> n < version s -> n < latest_version s ->
+    (exists disks,
+       prune_forest_disks H eff r (forest s) sched n = POk disks /\
+       Forall (fun d => readable H d (filter (fun p => n <? fst p) (forest s)) = true) disks)
+    \/ collision H.
+Proof. exact PA_prune_safe_reachable. Qed.
+Print Assumptions C05_deletion_crash_images_keep_retained_versions.
+
+Theorem C05_rekey_order_matters_refuted : ltac:(let t := type of rekey_order_matters_refuted in exact t).
+Proof. exact rekey_order_matters_refuted. Qed.
+Print Assumptions C05_rekey_order_matters_refuted.
+
+Example C05_deletion_disks_example : ltac:(let t := type of pa_disks in exact t).
+Proof. exact pa_disks. Qed.
